@@ -9,7 +9,7 @@ use crate::{
     type_qualifiers::GraphqlTypeQualifier,
     GeneralError, GraphQLClientCodegenOptions,
 };
-use heck::ToSnakeCase;
+use heck::{ToSnakeCase, ToUpperCamelCase};
 use proc_macro2::{Ident, Span, TokenStream};
 use quote::{quote, ToTokens};
 use selection::*;
@@ -339,6 +339,27 @@ where
         shared::keyword_replace(normalized_name).as_ref(),
         Span::call_site(),
     );
+    if input.is_one_of {
+        // A @oneOf input is generated as an enum (see inputs.rs): the literal selects one variant.
+        let mut provided = input
+            .fields
+            .iter()
+            .filter_map(|(name, r#type)| object_map.get(name).map(|value| (name, r#type, value)));
+        return match (provided.next(), provided.next()) {
+            (Some((name, r#type, value)), None) => {
+                let variant = Ident::new(
+                    shared::keyword_replace(name.to_upper_camel_case()).as_ref(),
+                    Span::call_site(),
+                );
+                let value = graphql_parser_value_to_literal(value, r#type.id, false, options, query);
+                quote!(#constructor::#variant(#value))
+            }
+            _ => quote!(compile_error!(
+                "A @oneOf input object literal must set exactly one field."
+            )),
+        };
+    }
+
     let fields: Vec<TokenStream> = input
         .fields
         .iter()
